@@ -10,8 +10,8 @@ import json, os, re, shutil, subprocess, sys, time
 
 REPO = "/repo"
 VERIF = "/verif"
-SCRATCH = "/tmp/seedcheck"
-TARGET = "/tmp/seedcheck-target"
+SCRATCH = os.environ.get("SEED_SCRATCH", "/tmp/seedcheck")
+TARGET = os.environ.get("SEED_TARGET", "/tmp/seedcheck-target")
 
 def run(cmd, cwd=None, env=None, timeout=3600):
     e = dict(os.environ)
